@@ -223,7 +223,15 @@ class SetEncoder(encoder.SequenceEncoder):
                 except KeyError:
                     raise error.PyAsn1Error('Component name "%s" not found in %r' % (namedType.name, value))
 
-                if namedType.isDefaulted and component == namedType.asn1Object:
+                if namedType.isDefaulted and (
+                        component == namedType.asn1Object or
+                        # Python containers never compare equal to
+                        # constructed ASN.1 objects
+                        isinstance(namedType.asn1Object,
+                                   (univ.SequenceAndSetBase,
+                                    univ.SequenceOfAndSetOfBase)) and
+                        encodeFun(component, namedType.asn1Object, **options) ==
+                        encodeFun(namedType.asn1Object, **options)):
                     continue
 
                 compsMap[id(component)] = namedType
